@@ -247,7 +247,7 @@ Proof.
   - set (o := kv :: o') in *. repeat rewrite <- app_assoc. cbn [app].
     rewrite lex_lbrace, lex_nl, lex_fields; [| apply spaces_app; [exact Hind | reflexivity] | exact Hwf].
     rewrite (lex_ws _ _ (spaces_ws _ Hind)). cbn [app]. rewrite lex_rbrace.
-    rewrite cons_opt_app_opt, app_app_opt, cons_app_opt. reflexivity.
+    rewrite (cons_opt_app_opt TRBrace), app_app_opt, cons_app_opt. reflexivity.
 Qed.
 
 Definition objs_wf (l : list jobj) : Prop := Forall obj_wf l.
@@ -260,7 +260,7 @@ Proof.
   - inversion Hwf as [|? ? Ho Hrest]; subst.
     cbn [print_objs toks_objs]. repeat rewrite <- app_assoc.
     rewrite (lex_ws _ _ (spaces_ws _ Hind)), (lex_obj _ _ _ Hind Ho), lex_sep_after, (IH Hrest).
-    rewrite !app_app_opt. reflexivity.
+    rewrite !app_app_opt, <- app_assoc. reflexivity.
 Qed.
 
 Lemma lex_arr : forall ind l r, spaces ind -> objs_wf l ->
@@ -271,7 +271,7 @@ Proof.
   - set (l := o :: l') in *. repeat rewrite <- app_assoc. cbn [app].
     rewrite lex_lbrack, lex_nl, lex_objs; [| apply spaces_app; [exact Hind | reflexivity] | exact Hwf].
     rewrite (lex_ws _ _ (spaces_ws _ Hind)). cbn [app]. rewrite lex_rbrack.
-    rewrite cons_opt_app_opt, app_app_opt, cons_app_opt. reflexivity.
+    rewrite (cons_opt_app_opt TRBrack), app_app_opt, cons_app_opt. reflexivity.
 Qed.
 
 Definition doc_wf (d : jdoc) : Prop := objs_wf (fst d) /\ objs_wf (snd d).
@@ -284,4 +284,199 @@ Proof.
   cbn [app]. rewrite lex_colon_sp. rewrite (lex_arr [32; 32] _ _ eq_refl Hl).
   rewrite lex_nl, lex_rbrace. cbn [lex cons_opt app_opt].
   repeat rewrite <- app_assoc. reflexivity.
+Qed.
+
+(* ---- the parser on the token view ------------------------------------------------------------- *)
+Lemma scalar_of_tok : forall v, scalar_of (tok_of v) = Some v.
+Proof. destruct v; reflexivity. Qed.
+
+Lemma parr_fields : forall l objs cur ts, l <> [] ->
+  parr (PKey objs cur) (toks_fields l ++ TRBrace :: ts) = parr (PObjEnd ((rev cur ++ l) :: objs)) ts.
+Proof.
+  induction l as [|[k v] rest IH]; intros objs cur ts Hne; [congruence|].
+  cbn [toks_fields app parr]. rewrite scalar_of_tok.
+  destruct rest as [|kv2 rest'].
+  - cbn [comma_if toks_fields app parr rev]. reflexivity.
+  - remember (kv2 :: rest') as rest eqn:Er.
+    assert (Hr : rest <> []) by (subst; discriminate).
+    replace (comma_if rest) with [TComma] by (subst; reflexivity). cbn [app parr].
+    rewrite IH by exact Hr. cbn [rev]. rewrite <- app_assoc. reflexivity.
+Qed.
+
+Lemma parr_obj : forall o objs ts,
+  parr (PObjOpen objs) (toks_fields o ++ TRBrace :: ts) = parr (PObjEnd (o :: objs)) ts.
+Proof.
+  intros o objs ts. destruct o as [|[k v] rest].
+  - reflexivity.
+  - change (parr (PObjOpen objs) (toks_fields ((k, v) :: rest) ++ TRBrace :: ts))
+      with (parr (PKey objs []) (toks_fields ((k, v) :: rest) ++ TRBrace :: ts)).
+    rewrite parr_fields by discriminate. reflexivity.
+Qed.
+
+Lemma parr_objs : forall l objs ts, l <> [] ->
+  parr (PNextObj objs) (toks_objs l ++ TRBrack :: ts) = Some (rev objs ++ l, ts).
+Proof.
+  induction l as [|o rest IH]; intros objs ts Hne; [congruence|].
+  cbn [toks_objs]. unfold toks_obj. repeat rewrite <- app_assoc. cbn [app parr].
+  rewrite <- app_assoc. cbn [app]. rewrite parr_obj.
+  destruct rest as [|o2 rest'].
+  - cbn [comma_if toks_objs app parr rev]. reflexivity.
+  - remember (o2 :: rest') as rest eqn:Er.
+    assert (Hr : rest <> []) by (subst; discriminate).
+    replace (comma_if rest) with [TComma] by (subst; reflexivity). cbn [app parr].
+    rewrite IH by exact Hr. cbn [rev]. rewrite <- app_assoc. reflexivity.
+Qed.
+
+Lemma parr_arr : forall l ts, parr PArrOpen (toks_objs l ++ TRBrack :: ts) = Some (l, ts).
+Proof.
+  intros l ts. destruct l as [|o rest].
+  - reflexivity.
+  - change (parr PArrOpen (toks_objs (o :: rest) ++ TRBrack :: ts))
+      with (parr (PNextObj []) (toks_objs (o :: rest) ++ TRBrack :: ts)).
+    rewrite parr_objs by discriminate. reflexivity.
+Qed.
+
+Theorem parse_toks_doc : forall d, parse_doc_toks (toks_doc d) = Some d.
+Proof.
+  intros [dl ll]. unfold toks_doc, toks_arr. cbn [fst snd app parse_doc_toks].
+  rewrite text_eqb_refl. rewrite <- app_assoc. cbn [app]. rewrite parr_arr.
+  rewrite text_eqb_refl. rewrite <- app_assoc. cbn [app]. rewrite parr_arr. reflexivity.
+Qed.
+
+(* the printed document (safe string escape) parses back to the document *)
+Theorem parse_print_doc : forall d, doc_wf d -> parse_json (print_doc esc_safe1 d) = Some d.
+Proof.
+  intros d H. unfold parse_json. rewrite (lex_doc _ H). cbn [bind_opt]. apply parse_toks_doc.
+Qed.
+
+(* ---- replacing '<' on the finished text ------------------------------------------------------- *)
+Definition repl1 (c : N) : text := if c =? 60 then lt_escape else [c].
+
+Lemma replace_lt_app : forall a b, replace_lt (a ++ b) = replace_lt a ++ replace_lt b.
+Proof. intros. unfold replace_lt. apply flat_map_app. Qed.
+
+Lemma replace_lt_id : forall s, has_char 60 s = false -> replace_lt s = s.
+Proof.
+  induction s as [|c s IH]; intro H; [reflexivity|].
+  unfold has_char in H. cbn [existsb] in H. apply orb_false_iff in H as [H1 H2].
+  unfold replace_lt. cbn [flat_map]. fold (replace_lt s). rewrite (IH H2).
+  rewrite N.eqb_sym in H1. rewrite H1. reflexivity.
+Qed.
+
+Lemma hexdigit_not_lt : forall d, d < 16 -> hexdigit d <> 60.
+Proof. intros d H. unfold hexdigit. destruct (d <? 10) eqn:E; [apply N.ltb_lt in E|apply N.ltb_ge in E]; lia. Qed.
+
+Lemma replace_esc1 : forall c, replace_lt (esc_json1 c) = esc_safe1 c.
+Proof.
+  intro c. unfold esc_safe1. destruct (c =? 60) eqn:E0; [apply N.eqb_eq in E0; subst; reflexivity|].
+  apply replace_lt_id. unfold esc_json1.
+  destruct (c =? 34); [reflexivity|]. destruct (c =? 92); [reflexivity|].
+  destruct (c =? 10); [reflexivity|]. destruct (c =? 13); [reflexivity|].
+  destruct (c =? 9); [reflexivity|]. destruct (c =? 8); [reflexivity|]. destruct (c =? 12); [reflexivity|].
+  destruct (c <? 32) eqn:E8.
+  - apply N.ltb_lt in E8.
+    assert (H1 : c / 16 < 16) by (apply N.div_lt_upper_bound; lia).
+    assert (H2 : c mod 16 < 16) by (apply N.mod_lt; lia).
+    apply has_char_false_forall. intros x Hx.
+    cbn [In] in Hx. destruct Hx as [<-|[<-|[<-|[<-|[<-|[<-|[]]]]]]]; try lia;
+      apply hexdigit_not_lt; assumption.
+  - unfold has_char. cbn [existsb]. rewrite N.eqb_sym, E0. reflexivity.
+Qed.
+
+Lemma replace_str : forall s, replace_lt (print_str esc_json1 s) = print_str esc_safe1 s.
+Proof.
+  intro s. unfold print_str. change (34 :: flat_map esc_json1 s ++ [34]) with ([34] ++ flat_map esc_json1 s ++ [34]).
+  rewrite !replace_lt_app. cbn [replace_lt flat_map N.eqb Pos.eqb app]. f_equal. f_equal.
+  induction s as [|c s IH]; [reflexivity|].
+  cbn [flat_map]. rewrite replace_lt_app, replace_esc1, IH. reflexivity.
+Qed.
+
+Definition scalar_plain (v : scalar) : Prop := match v with SNum t => has_char 60 t = false | _ => True end.
+Definition obj_plain (o : jobj) : Prop := Forall (fun kv => scalar_plain (snd kv)) o.
+Definition doc_plain (d : jdoc) : Prop := Forall obj_plain (fst d) /\ Forall obj_plain (snd d).
+
+Lemma replace_scalar : forall v, scalar_plain v ->
+  replace_lt (print_scalar esc_json1 v) = print_scalar esc_safe1 v.
+Proof.
+  intros v H. destruct v; cbn [print_scalar]; try reflexivity.
+  - apply replace_lt_id, H.
+  - apply replace_str.
+Qed.
+
+Lemma spaces_plain : forall ind, spaces ind -> replace_lt ind = ind.
+Proof.
+  intros ind H. apply replace_lt_id. apply has_char_false_forall. intros x Hx ->.
+  unfold spaces in H. rewrite forallb_forall in H. specialize (H _ Hx). discriminate.
+Qed.
+
+Lemma replace_sep : forall {A} (r : list A), replace_lt (sep_after r) = sep_after r.
+Proof. intros A [|x r]; reflexivity. Qed.
+
+Lemma replace_fields : forall ind l, spaces ind -> obj_plain l ->
+  replace_lt (print_fields esc_json1 ind l) = print_fields esc_safe1 ind l.
+Proof.
+  intros ind l Hind. induction l as [|[k v] rest IH]; intro H; [reflexivity|].
+  inversion H as [|? ? Hv Hrest]; subst. cbn [snd] in Hv.
+  cbn [print_fields]. rewrite !replace_lt_app, (spaces_plain _ Hind), replace_str, (replace_scalar _ Hv),
+    replace_sep, (IH Hrest). reflexivity.
+Qed.
+
+Lemma replace_obj : forall ind o, spaces ind -> obj_plain o ->
+  replace_lt (print_obj esc_json1 ind o) = print_obj esc_safe1 ind o.
+Proof.
+  intros ind o Hind H. unfold print_obj. destruct o as [|kv o']; [reflexivity|].
+  rewrite !replace_lt_app, (spaces_plain _ Hind), replace_fields;
+    [reflexivity | apply spaces_app; [exact Hind | reflexivity] | exact H].
+Qed.
+
+Lemma replace_objs : forall ind l, spaces ind -> Forall obj_plain l ->
+  replace_lt (print_objs esc_json1 ind l) = print_objs esc_safe1 ind l.
+Proof.
+  intros ind l Hind. induction l as [|o rest IH]; intro H; [reflexivity|].
+  inversion H as [|? ? Ho Hrest]; subst.
+  cbn [print_objs]. rewrite !replace_lt_app, (spaces_plain _ Hind), (replace_obj _ _ Hind Ho), replace_sep,
+    (IH Hrest). reflexivity.
+Qed.
+
+Lemma replace_arr : forall ind l, spaces ind -> Forall obj_plain l ->
+  replace_lt (print_arr esc_json1 ind l) = print_arr esc_safe1 ind l.
+Proof.
+  intros ind l Hind H. unfold print_arr. destruct l as [|o l']; [reflexivity|].
+  rewrite !replace_lt_app, (spaces_plain _ Hind), replace_objs;
+    [reflexivity | apply spaces_app; [exact Hind | reflexivity] | exact H].
+Qed.
+
+(* .replace('<', ...) on the text json.dumps returns = printing every string with the safe escape *)
+Theorem replace_print_doc : forall d, doc_plain d ->
+  replace_lt (print_doc esc_json1 d) = print_doc esc_safe1 d.
+Proof.
+  intros d [Hd Hl]. unfold print_doc.
+  rewrite !replace_lt_app, !replace_str, (replace_arr [32; 32] _ eq_refl Hd), (replace_arr [32; 32] _ eq_refl Hl).
+  reflexivity.
+Qed.
+
+(* after the replacement no '<' is left, whatever the text was *)
+Theorem replace_lt_no_lt : forall s, has_char 60 (replace_lt s) = false.
+Proof.
+  induction s as [|c s IH]; [reflexivity|].
+  unfold replace_lt. cbn [flat_map]. fold (replace_lt s). rewrite has_char_app, IH, orb_false_r.
+  destruct (c =? 60) eqn:E; [reflexivity|].
+  unfold has_char. cbn [existsb]. rewrite N.eqb_sym, E. reflexivity.
+Qed.
+
+Lemma numtext_plain : forall t, forallb is_numchar t = true -> has_char 60 t = false.
+Proof.
+  intros t H. apply has_char_false_forall. intros x Hx ->.
+  rewrite forallb_forall in H. specialize (H _ Hx). discriminate.
+Qed.
+
+(* ---- reading values --------------------------------------------------------------------------- *)
+Lemma lookup_app_absent : forall k a b, (forall kv, In kv b -> text_eqb k (fst kv) = false) ->
+  lookup k (a ++ b) = lookup k a.
+Proof.
+  intros k a b H. induction a as [|[k' v] a IH].
+  - cbn [app]. induction b as [|[k' v] b IHb]; [reflexivity|].
+    cbn [lookup]. rewrite IHb by (intros kv Hkv; apply H; right; exact Hkv).
+    pose proof (H (k', v) (or_introl eq_refl)) as Hk. cbn [fst] in Hk. rewrite Hk. reflexivity.
+  - cbn [app lookup]. rewrite IH. reflexivity.
 Qed.
